@@ -1,6 +1,7 @@
 package vk
 
 import (
+	"encoding/json"
 	"encoding/base64"
 	"errors"
 	"fmt"
@@ -285,7 +286,7 @@ func (z ZooErr) MarshalJSON() ([]byte, error) { return nil, errors.New(z.Msg) }
 // []int, []float64, string, ... to typed constructors - those members are left out so that the
 // expectation really is "the default (reflect) arm".
 func (g *fgen) zoo(forAny bool) (any, EV, string) {
-	z := rapid.IntRange(0, 15).Draw(g.t, "zoo")
+	z := rapid.IntRange(0, 16).Draw(g.t, "zoo")
 	if forAny && (z == 6 || z == 8 || z == 12) {
 		z = 2
 	}
@@ -374,6 +375,16 @@ func (g *fgen) zoo(forAny bool) (any, EV, string) {
 		return myBytes(b), evStr(base64.StdEncoding.EncodeToString(b)), fmt.Sprintf("myBytes(%x) -> base64", b)
 	case 14:
 		return errors.New("boom"), EV{K: 'o'}, "errors.New (marshals as {})"
+	case 16:
+		// a json.RawMessage as it comes out of json.Encoder / MarshalIndent or an HTTP body: valid
+		// JSON with insignificant white space, line feeds included. The record is still one line.
+		a := g.i64("zra")
+		ws := func(l string) string {
+			return rapid.SampledFrom([]string{"", " ", "\n", "\n  ", "\t", "\r\n"}).Draw(g.t, l)
+		}
+		raw := "{" + ws("zw1") + `"a"` + ws("zw2") + ":" + ws("zw3") + strconv.FormatInt(a, 10) + "," + ws("zw4") + `"b"` + ":" + ws("zw5") + "[" + ws("zw6") + "1," + ws("zw7") + `"s"` + ws("zw8") + "]" + ws("zw9") + "}" + rapid.SampledFrom([]string{"", "\n", " \n"}).Draw(g.t, "zwEnd")
+		ev := EV{K: 'o', Members: []EM{{Key: "a", Val: evInt(a)}, {Key: "b", Val: EV{K: 'a', Items: []EV{evInt(1), evStr("s")}}}}}
+		return json.RawMessage(raw), ev, fmt.Sprintf("json.RawMessage(%q)", raw)
 	default:
 		a, b := g.i64("zi1"), g.f64("zf1")
 		if math.IsNaN(b) || math.IsInf(b, 0) {
